@@ -1074,6 +1074,28 @@ func runConcurrent(c concCase) error {
 	}
 	wantFirst := firstRead(firstKind, rs, rl, rly, rlm, mkExtra(rl))
 	extra := mkExtra(l)
+	var firstObjs []interface{}
+	switch firstKind {
+	case 0:
+		firstObjs = []interface{}{s}
+	case 1:
+		firstObjs = []interface{}{lm, ly}
+	case 2:
+		firstObjs = extra[0:5]
+	case 3:
+		firstObjs = extra[5:7]
+	default:
+		firstObjs = extra[7:9]
+	}
+	var firstCalls []reflect.Value
+	for _, o := range firstObjs {
+		v := reflect.ValueOf(o)
+		for i := 0; i < v.NumMethod(); i++ {
+			if mt := v.Type().Method(i); mt.Type.NumIn() == 1 && mt.Type.NumOut() > 0 && !strings.HasPrefix(mt.Name, "Set") {
+				firstCalls = append(firstCalls, v.Method(i))
+			}
+		}
+	}
 	var wg sync.WaitGroup
 	start := make(chan struct{})
 	for g := range c.Progs {
@@ -1083,6 +1105,15 @@ func runConcurrent(c concCase) error {
 			<-start
 			// every goroutine's first act is to read the shared civil date (alternately the shared year / month) through
 			// all its accessors: first uses of a shared object coincide
+			// first, the accessors of the chosen shared objects back to back through method values resolved before the
+			// goroutines started (nothing between two calls that would order the goroutines: the race detector sees an
+			// unsynchronised lazy field however the calls interleave), then the digest for the values
+			for k := range firstCalls {
+				func() {
+					defer func() { _ = recover() }()
+					firstCalls[(k+g)%len(firstCalls)].Call(nil)
+				}()
+			}
 			gotFirst[g] = firstRead(firstKind, s, l, ly, lm, extra)
 			if len(c.Burst) > 0 {
 				gotBurst[g] = sortedBurst(burst(l, c.Burst, g))
